@@ -21,6 +21,29 @@ CHECKS = {
             "§4 C17", "MIR dominance, path-sensitive linear-use and guard-liveness typestate via rustc_private driver"),
 }
 
+CHECKS.update({
+    "C01": ("Linear-use (drop-flag aware, path-sensitive) proof that each appended entry is moved into exactly one ring insertion and each "
+            "popped entry into exactly one EntryIoStream::next on every path; control-independence of the drain loop from stream results; "
+            "who-may-call closure of next/flush on the receiver's stream. Exhaustive over paths and call sites of the workspace; says "
+            "nothing about cross-thread ordering (ArrayQueue, scheduler).", "§4 C01",
+            "MIR linear-use typestate + who-may-call + provenance of branch conditions via rustc_private driver"),
+    "C04": ("Dominance rules: every release of the waiting-waker vector is dominated by the stream flush (closure bound at the call site "
+            "must flush on every path), tracker dropped at thread exit only after the shutdown routine, tracker arguments originate from "
+            "the dominating drain, bound derives from the ring; dead-queue flush never unwraps. Safety skeleton only; no liveness claim.",
+            "§4 C04", "MIR dominance + provenance (sync-before-acknowledge rule) via rustc_private driver"),
+    "C09": ("Call-graph reachability to a deny list of blocking primitives from the append entry points; linear move of the entry into a "
+            "displace-oldest insertion; overflow counter amount/guards/loop-freedom. Exhaustive over the workspace call graph (depth 5).",
+            "§4 C09", "call-graph reachability (effect deny-list) + MIR linear-use + control-dependence via rustc_private driver"),
+    "C14": ("Every field of the formatter state is classified by write reachability; each scratch field must be reset before (or after) "
+            "every use on all paths of a format call; per-call writer built from constants/config; statics enumerated. This is the whole "
+            "mechanism behind the property, decided for all paths and for any future field.", "§4 C14",
+            "who-may-write classification + reset-dominates-use (interprocedural through &mut parameters) via rustc_private driver"),
+    "C16": ("No I/O result discarded anywhere in the library crates; the vectored-write retry loop's arms (Ok(0), Ok(n), Interrupted, hard "
+            "error, exit condition, io-slice rebuild) checked as path rules; sinks never unwrap stream results; tee calls both streams on "
+            "every path. Byte arithmetic of advance_slices is not decided.", "§4 C16",
+            "unused-result dataflow + loop/arm path rules on MIR via rustc_private driver"),
+})
+
 NA_PENDING = {}
 
 def main():
